@@ -29,5 +29,16 @@ func seeded() []Case {
 		{IDL: p, Root: rp, Paths: h("$.self.self"), AP: [][][]string{{{"f8", "f8"}}}, Op: "getpath", GP: vl.Hex("$.self.self"), GPAP: []string{"f8", "f8"}, GPTd: true},
 		{IDL: s, Root: rs, Paths: h("$.*"), AP: [][][]string{{{"F*"}}}, Op: "getpath", GP: vl.Hex("$.s.a"), GPAP: []string{"f4", "f1"}},
 		{IDL: s, Root: rs, Black: true, Paths: h("$.l[*]"), AP: [][][]string{{{"f2", "*"}}}, Op: "getpath", GP: vl.Hex("$.l[3]"), GPAP: []string{"f2", "i3"}},
+		// numbers are exact integers: nothing is wrapped modulo 2^32 or 2^16
+		{IDL: s, Root: rs, Paths: h("$.4294967297"), Op: "new", WantErr: true},
+		{IDL: s, Root: rs, Paths: h("$.1099511627777.a"), Op: "new", WantErr: true},
+		{IDL: s, Root: rs, Paths: h("$.65537"), Op: "new", WantErr: true},
+		{IDL: s, Root: rs, Paths: h("$.+1"), Op: "new", WantErr: true},
+		{IDL: s, Root: rs, Paths: h("$.-0"), Op: "new", WantErr: true},
+		{IDL: s, Root: rs, Paths: h("$.18446744073709551617"), Op: "new", WantErr: true},
+		{IDL: s, Root: rs, Paths: h("$.001"), AP: [][][]string{{{"f1"}}}, Op: "query", Steps: []string{"f1"}},
+		{IDL: s, Root: rs, Paths: h("$.l[4294967297]"), AP: [][][]string{{{"f2", "i4294967297"}}}, Op: "query", Steps: []string{"f2", "i1"}},
+		{IDL: s, Root: rs, Paths: h("$.im{4294967298,65538}"), AP: [][][]string{{{"f5", "i4294967298"}, {"f5", "i65538"}}}, Op: "query", Steps: []string{"f5", "i2"}},
+		{IDL: s, Root: rs, Paths: h("$.im{4294967298}"), AP: [][][]string{{{"f5", "i4294967298"}}}, Op: "getpath", GP: vl.Hex("$.im{2}"), GPAP: []string{"f5", "i2"}},
 	}
 }
